@@ -80,7 +80,27 @@ static void gen_dmg(hctx* h) {
     }
 }
 
+/* lengths that do not fit 32 bits: `len` zero bytes (first and last page touched) in a no-reserve mapping; one-shot and
+ * as update(crc(a), b) with a long b; reference: zlib's crc32 over pieces of 1 GiB (its length argument is 32 bits wide) */
+#include <sys/mman.h>
+#include <zlib.h>
+static void do_crc_big(hctx* h, uint64_t len, uint64_t split) {
+    fprintf(h->out, "crc_big len=%llu split=%llu", (unsigned long long)len, (unsigned long long)split); h_call(h);
+    uint8_t* m = (uint8_t*)mmap(NULL, (size_t)len + 4096, PROT_READ | PROT_WRITE, MAP_PRIVATE | MAP_ANONYMOUS | MAP_NORESERVE, -1, 0);
+    if (m == MAP_FAILED) { fprintf(h->out, " | skipped=1 triv=1\n"); h->n_lines++; return; }
+    m[0] = 0x61; m[len - 1] = 0x7A; if (split && split < len) m[split] = 0x55;
+    uLong ref = crc32(0L, Z_NULL, 0);
+    for (uint64_t off = 0; off < len; ) { uint64_t piece = len - off > (1ull << 30) ? (1ull << 30) : len - off; ref = crc32(ref, m + off, (uInt)piece); off += piece; }
+    uint32_t one = carquet_crc32(m, (size_t)len);
+    uint32_t two = carquet_crc32_update(carquet_crc32(m, (size_t)split), m + split, (size_t)(len - split));
+    munmap(m, (size_t)len + 4096);
+    fprintf(h->out, " | r=%u upd=%u p_zlib=%d p_update_composes=%d\n", one, two, one == (uint32_t)ref, two == (uint32_t)ref);
+    h->n_lines++;
+}
+
 static void gen_crc(hctx* h) {
+    do_crc_big(h, (1ull << 32) + 13, 5);
+    if (h->thorough) { do_crc_big(h, 1ull << 32, 1ull << 31); do_crc_big(h, (1ull << 33) + 7, (1ull << 32) + 1); }
     size_t maxlen = h->thorough ? 1025 : 257;
     uint8_t* buf = h_alloc(maxlen + 8);
     /* all lengths 0..maxlen; alignments cycle 0..15 (thorough: all 16 for lengths < 80) */
@@ -113,6 +133,7 @@ static int replay_crc(hctx* h, const h_line* l) {
         size_t n; uint8_t* d = h_unhex(h_in(l, "data"), &n);
         do_crc(h, d, n, 0); free(d); return 1;
     }
+    if (!strcmp(l->op, "crc_big")) { do_crc_big(h, strtoull(h_in(l, "len"), NULL, 10), strtoull(h_in(l, "split"), NULL, 10)); return 1; }
     if (!strcmp(l->op, "crc_upd")) {
         size_t na, nb; uint8_t* a = h_unhex(h_in(l, "a"), &na); uint8_t* b = h_unhex(h_in(l, "b"), &nb);
         uint8_t* d = h_alloc(na + nb); memcpy(d, a, na); memcpy(d + na, b, nb);
